@@ -68,3 +68,22 @@ Theorem C04_accepted_blocks_are_checked : forall pol b idx name,
     (idx, name) = apply_entries (o_name op) (concat (map cb_entries blocks)).
 Proof. exact read_file_checked. Qed.
 Print Assumptions C04_accepted_blocks_are_checked.
+
+(* Truncation: if the reader accepts f, then for EVERY n reading the first n bytes of f either
+   reports io.EOF/io.ErrUnexpectedEOF (EShort) or yields exactly the index of the first k blocks
+   of f for some k - a cut is detected or gives a block-boundary prefix, never other records.
+   ([block_accepted pol] = the block passes ParseBlock; by C04_accepted_blocks_are_checked such a
+   block is checked.) Holds for every tail policy, i.e. with or without torn-tail tolerance. *)
+Theorem C04_truncation_detected_or_prefix : forall pol f res,
+  fst (read_file_bytes pol f) = Ok res ->
+  exists op blocks tail,
+    fst (new_file_reader f) = Ok op /\
+    skipN (data_start_offset (o_hdr op)) f = concat (map cb_bytes blocks) ++ tail /\
+    Forall (block_accepted pol) blocks /\ incomplete_tail tail /\
+    res = apply_entries (o_name op) (concat (map cb_entries blocks)) /\
+    forall n,
+      fst (read_file_bytes pol (firstn n f)) = Err EShort \/
+      exists k, fst (read_file_bytes pol (firstn n f)) =
+                Ok (apply_entries (o_name op) (concat (map cb_entries (firstn k blocks)))).
+Proof. exact read_file_truncation. Qed.
+Print Assumptions C04_truncation_detected_or_prefix.
